@@ -82,6 +82,23 @@ def model_lines(tools, lines, shards=16):
         for i, out in enumerate(ex.map(work, chunks)): res[i::n] = out
     return res
 
+_STEMS = None
+def stems(cb=None):
+    """file stems per file-producing callback, as the translator reads them from the source (fallback: the pinned ones): the harness pre-seeds / watches the files the code will use"""
+    global _STEMS
+    if _STEMS is None:
+        d = {'csv': ['blocks', 'transactions', 'tx_in', 'tx_out'], 'unspent': ['unspent'], 'balances': ['balances']}
+        try:
+            from . import srcgen
+            t = srcgen.extract(); bad = {g for g, _ in t['fails']}
+            if 'csv_stems' not in bad and len(t.get('csv_stems', [])) == 4: d['csv'] = list(t['csv_stems'])
+            if 'unspent_writer' not in bad and t.get('unspent_stem'): d['unspent'] = [t['unspent_stem']]
+            if 'balances_writer' not in bad and t.get('balances_stem'): d['balances'] = [t['balances_stem']]
+        except Exception:
+            pass
+        _STEMS = d
+    return _STEMS if cb is None else _STEMS[cb]
+
 class HooksUnavailable(Exception):
     pass
 
@@ -126,11 +143,16 @@ def hook_lines(tools, hook, lines, release=False, shards=16):
 SUBCMD = {'csv': 'csvdump', 'unspent': 'unspentcsvdump', 'balances': 'balances', 'opreturn': 'opreturn', 'stats': 'simplestats'}
 NEEDS_DIR = {'csv', 'unspent', 'balances'}
 
+RETRIES = []      # (case, callback, attempt) of runs repeated after a timeout
+
 class ImplResult:
     pass
 
-def run_impl(tools, case, cb, datadir=None, outdir=None, release=False, env=None, preexec=None, verbosity=0, keep=False, timeout=600, wrapper=None, prefill=None):
-    """Materialises the case (unless datadir is given), runs one callback, returns an ImplResult."""
+def run_impl(tools, case, cb, datadir=None, outdir=None, release=False, env=None, preexec=None, verbosity=0, keep=False, timeout=90, wrapper=None, prefill=None, _attempt=0):
+    """Materialises the case (unless datadir is given), runs one callback, returns an ImplResult.
+    A run that exceeds the timeout is repeated (up to 3 attempts): rusty-leveldb 3.0.2 loads the index through an iterator whose read sampling is a symmetric random walk
+    (`while byte_count < 0 { byte_count += random::<isize>() % (2 * PERIOD) }`), so any run can, with small probability, spin for seconds to minutes before the first block
+    is read - independent of the input and of rusty-blockparser's own code. A run that times out three times in a row is reported as it is."""
     base = os.path.join(tools.work, 'c%s_%s_%d' % (re.sub(r'\W', '_', case.id), cb, time.time_ns() % 10**9))
     own_dd = datadir is None
     if own_dd:
@@ -142,15 +164,15 @@ def run_impl(tools, case, cb, datadir=None, outdir=None, release=False, env=None
     if prefill == 'stale' or (own_out and prefill is None):
         # every run starts from a dump folder that holds leftovers of an aborted earlier run (tmp files LONGER than anything this run writes)
         # and another run's result: the property (C10 / C13) says they must not change the outcome
-        stems = {'csv': ['blocks', 'transactions', 'tx_in', 'tx_out'], 'unspent': ['unspent'], 'balances': ['balances']}[cb]
-        stale = {'%s.csv.tmp' % st: b'stale;row;of;an;aborted;run\n' * 6000 for st in stems}
-        stale['%s-31337-31338.csv' % stems[0]] = b'result of another run\n'
+        stems_ = stems(cb)
+        stale = {'%s.csv.tmp' % st: b'stale;row;of;an;aborted;run\n' * 6000 for st in stems_}
+        stale['%s-31337-31338.csv' % stems_[0]] = b'result of another run\n'
         prefill = stale
     if prefill and outdir:
         for name, data in prefill.items():
             with open(os.path.join(outdir, name), 'wb') as f: f.write(data)
     binp = tools.bin_release if release else tools.bin
-    args = [binp, '-d', datadir] + ['-v'] * verbosity + case.args() + [SUBCMD[cb]] + ([outdir] if cb in NEEDS_DIR else [])
+    args = [binp, '-d', datadir] + ['-v'] * max(verbosity, getattr(case, 'verbosity', 0)) + case.args() + [SUBCMD[cb]] + ([outdir] if cb in NEEDS_DIR else [])
     if wrapper: args = wrapper + args
     e = dict(os.environ); e.pop('RBP_VERIF_HOOK', None); e.setdefault('RAYON_NUM_THREADS', '4'); e.update(env or {})      # many runs in parallel: keep the thread count per process small (C13 varies it explicitly)
     t0 = time.time()
@@ -159,6 +181,12 @@ def run_impl(tools, case, cb, datadir=None, outdir=None, release=False, env=None
         rc, so, se = p.returncode, p.stdout, p.stderr
     except subprocess.TimeoutExpired as ex:
         rc, so, se = -999, ex.stdout or b'', ex.stderr or b''
+        if _attempt < 2:
+            if own_dd: shutil.rmtree(datadir, ignore_errors=True)
+            if own_out: shutil.rmtree(outdir, ignore_errors=True)
+            RETRIES.append((case.id, cb, _attempt))
+            return run_impl(tools, case, cb, datadir=None if own_dd else datadir, outdir=None if own_out else outdir, release=release, env=env, preexec=preexec, verbosity=verbosity,
+                            keep=keep, timeout=timeout, wrapper=wrapper, prefill=('stale' if stale and not own_out else (None if stale else prefill)), _attempt=_attempt + 1)
     r = ImplResult(); r.rc = rc; r.stdout = so; r.stderr = se; r.wall = time.time() - t0; r.args = args
     r.files = {}
     if outdir and os.path.isdir(outdir):
@@ -167,7 +195,7 @@ def run_impl(tools, case, cb, datadir=None, outdir=None, release=False, env=None
             if os.path.isfile(pth):
                 with open(pth, 'rb') as f: r.files[name] = f.read()
     if stale:
-        other = '%s-31337-31338.csv' % {'csv': 'blocks', 'unspent': 'unspent', 'balances': 'balances'}[cb]
+        other = '%s-31337-31338.csv' % stems(cb)[0]
         r.foreign_touched = r.files.get(other) != stale[other]
         r.files.pop(other, None)
         for nm in [n for n in r.files if n.endswith('.tmp') and r.files[n] == stale.get(n)]: r.files[nm] = b''      # an untouched stale tmp counts as "tmp present, nothing of this run in it"
@@ -265,9 +293,25 @@ def cmp_rows_file(r, m, stem, header, mrows, totals_key=None):
 def cmp_unspent(r, m, case): return cmp_rows_file(r, m, 'unspent', m['header'].get('unspent', 'txid;indexOut;height;value;address'), m['unspent'], 'unspenttotals')
 def cmp_balances(r, m, case): return cmp_rows_file(r, m, 'balances', m['header'].get('balances', 'address;balance'), m['balance'])
 
-OPRET_RE = re.compile(rb'(?m)^height: (\d+) +txid: ([0-9a-f]{64})    data: ')
+OPRET_DEFAULT = rb'(?m)^height: (\d+) +txid: ([0-9a-f]{64})    data: '
+def _opret_regex():
+    """the line format is not fixed by the property (a line carrying height, txid and payload): the regular expression is derived from the format string the translator
+    reads in callbacks/opreturn.rs (arguments: height, txid, data - data last); the pinned format is the fallback"""
+    try:
+        from . import srcgen
+        fmt = srcgen.extract().get('opreturn_format')
+        parts = re.split(r'\{[^}]*\}', fmt) if fmt else []
+        if len(parts) == 4 and parts[3] == '' and '\n' not in fmt:
+            rx = '(?m)^' + re.escape(parts[0]) + r'(\d+) *' + re.escape(parts[1]).replace(r'\ ', ' ') + r'([0-9a-f]{64})' + re.escape(parts[2]).replace(r'\ ', ' ')
+            return re.compile(rx.encode())
+    except Exception:
+        pass
+    return re.compile(OPRET_DEFAULT)
+OPRET_RE = None
 LOG_RE = re.compile(rb'\n\[\d\d:\d\d:\d\d\] ')
 def parse_opreturn(stdout):
+    global OPRET_RE
+    if OPRET_RE is None: OPRET_RE = _opret_regex()
     parts = OPRET_RE.split(stdout); lines = []
     for k in range(1, len(parts), 3):
         pieces = LOG_RE.split(parts[k + 2]); payload = pieces[0]
